@@ -154,6 +154,12 @@ struct World {
         d.u(a->getSupport() == on_copy[tid]->getSupport());
         break;
       }
+      case 10: {  // higher powers of the position operator (binomial / factorial helpers), derivative operators
+        d.spline(X<2>{} * *a);
+        d.spline(X<4>{} * *b);
+        d.spline(Dx<2>{} * *a);
+        break;
+      }
       case 8: {  // support algebra on shared const supports
         auto u1 = sup->calcUnion(a->getSupport());
         auto i1 = sup->calcIntersection(b->getSupport());
@@ -168,9 +174,9 @@ struct World {
 
 static World<double> *w0;
 static World<Dbl> *w1;
-static const char *OPN[] = {"evaluate", "copy+destroy", "combine", "transform", "integrate", "generate", "isZero", "destroy-owned", "support-algebra", "combine-with-equal-grid-copy"};
+static const char *OPN[] = {"evaluate", "copy+destroy", "combine", "transform", "integrate", "generate", "isZero", "destroy-owned", "support-algebra", "combine-with-equal-grid-copy", "position-powers"};
 extern "C" {
-int c18_nops() { return 10; }
+int c18_nops() { return 11; }
 const char *c18_opname(int op) { return OPN[op]; }
 void c18_setup(int variant) {
   if (variant == 0) { w0 = new World<double>(); w0->setup(); }
